@@ -96,6 +96,8 @@ func fileClass(home, path string) (class string, bitcask int) {
 		return "home", -1
 	case rel == "tmp.data" || rel == "context.data":
 		return rel, -1
+	case rel == "context.data.tmp":
+		return "context.data", -1
 	case rel == "index" || strings.HasPrefix(rel, "index/"):
 		return "index", -1
 	}
